@@ -19,6 +19,8 @@ import (
 	"unsafe"
 
 	"github.com/modern-go/reflect2"
+
+	"github.com/hprose/hprose-golang/v3/internal/verifhook"
 )
 
 func (dec *Decoder) readObjectAsMap(structInfo structInfo) map[string]interface{} {
@@ -140,6 +142,9 @@ func newNamedStructDecoder(t reflect.Type, tag ...string) *structDecoder {
 	decoder.Lock()
 	defer decoder.Unlock()
 	registerNamedStructDecoder(t, decoder)
+	if verifhook.On {
+		verifhook.Gate("io.structDecoderPublished", t)
+	}
 	decoder.fields = getFieldMap(t, tag...)
 	return decoder
 }
